@@ -73,7 +73,8 @@ def _short(r):
 PIECES = [' select ', ' SELECT ', ' where ', ' WHERE 1', ' order by ', ' ORDER BY a1 desc', ' group by ', ' limit 5', ' LIMIT ', ' join ', ' left join b on a1 == b1', ' inner join ',
           ' except ', ' update ', ' set ', ' top 1 ', ' distinct ', ' distinct count ', ' from a ', ' as x', ' AS y,', ' with (header)', ' WITH (noheader)', ' desc', ' ASC', ' on ',
           ' and ', '*', 'a.*', 'b.*', ', *', '=', '==', ' = ', 'a1 = 2', '#', ' # c', ',', ';', ';;', '(', ')', '[', ']', '{', '}', '"', "'", '\\', 'a1', 'a[1]', 'b2', 'NR', 'NF', 'aNR',
-          'like(', 'UNNEST(', 'COUNT(*)', 'é', ' ', 'x', 'strict left join', '%', '_', '\\n', '"""', "'''", 'a.zz', 'b.k']
+          'like(', 'UNNEST(', 'COUNT(*)', 'é', ' ', 'x', 'strict left join', '%', '_', '\\n', '"""', "'''", 'a.zz', 'b.k',
+          '$', '$$', '$&', '$1', "$'", '$`', '${x}', '\\1', '\\g<0>', '{}', '{0}', '%s', '%(a)s', '&&', '||', '/*', '*/', '//', '`', '<!--']
 KEYWORDISH = re.compile(r'select|where|order by|group by|limit|join|except|update| set |top|distinct|from| as |with|desc|asc| on | and |[*=#,;()\[\]"\'\\]', re.I)
 ATTR_TOKEN = re.compile(r'(?:^|[^_a-zA-Z0-9])[ab]\.[_a-zA-Z]')
 
@@ -203,7 +204,7 @@ def st_js_case(draw):
             kinds.add('keyword-case')
             return ' '.join(respell.mixed_case(draw, w) for w in kw.split(' '))
         return kw
-    content = ''.join(draw(st.lists(st.sampled_from([p for p in PIECES if p not in ('a.zz', 'b.k', '\\n', '"""', "'''")]), min_size=1, max_size=4)))
+    content = ''.join(draw(st.lists(st.sampled_from([p for p in PIECES if p not in ('a.zz', 'b.k', '\\n', '"""', "'''", '`', '${x}')]), min_size=1, max_size=4)))
     qc = draw(st.sampled_from(["'", '"']))
     use_lit = q['type'] == 'select' and not q.get('except') and draw(st.booleans())
     q2 = copy.deepcopy(q)
